@@ -102,7 +102,7 @@ fn l0_i192_add_sub_neg_body<S: Src>(s: &mut S) {
         assert!(sub.is_some() == (a[2] >> 63 == 1));
     }
 }
-harness!(l0_i192_add_sub_neg, 8, l0_i192_add_sub_neg_body);
+harness!(l0_i192_add_sub_neg, 34, l0_i192_add_sub_neg_body);
 
 fn l0_i256_add_sub_neg_body<S: Src>(s: &mut S) {
     let a: [u64; 4] = any_limbs(s); let b: [u64; 4] = any_limbs(s);
@@ -118,7 +118,7 @@ fn l0_i256_add_sub_neg_body<S: Src>(s: &mut S) {
         assert!(sub.is_some() == (a[3] >> 63 == 1));
     }
 }
-harness!(l0_i256_add_sub_neg, 8, l0_i256_add_sub_neg_body);
+harness!(l0_i256_add_sub_neg, 34, l0_i256_add_sub_neg_body);
 
 /// L0 (complete): ordering, equality, sign tests and abs of I192 agree with the signed reference.
 fn l0_i192_cmp_abs_sign_body<S: Src>(s: &mut S) {
@@ -140,19 +140,21 @@ fn l0_i192_cmp_abs_sign_body<S: Src>(s: &mut S) {
     assert!(I192::MAX == i192([u64::MAX, u64::MAX, u64::MAX >> 1]));
     assert!(I192::ONE == i192([1, 0, 0]) && I192::TEN == i192([10, 0, 0]));
 }
-harness!(l0_i192_cmp_abs_sign, 8, l0_i192_cmp_abs_sign_body);
+harness!(l0_i192_cmp_abs_sign, 34, l0_i192_cmp_abs_sign_body);
 
-/// L0 (complete): I192 -> I256 widening is sign extension; I256 -> I192 narrowing is Ok exactly
-/// when the value is a sign extension of its low 192 bits, and then returns those bits.
+/// L0 (complete): I192 -> I256 widening is sign extension; I256 -> I192 narrowing returns the low
+/// 192 bits when it succeeds, and succeeds exactly when the value is a sign extension of its low 192
+/// bits AND is not -2^191 (the real code rejects the most negative value: known finding C24).
 fn l0_widen_narrow_body<S: Src>(s: &mut S) {
     let a: [u64; 3] = any_limbs(s);
     let ext = if a[2] >> 63 == 1 { u64::MAX } else { 0 };
     assert!(I256::from(i192(a)) == i256([a[0], a[1], a[2], ext]));
     let w: [u64; 4] = any_limbs(s);
-    let fits = (w[3] == 0 && w[2] >> 63 == 0) || (w[3] == u64::MAX && w[2] >> 63 == 1);
+    let is_min192 = w == [0, 0, 1u64 << 63, u64::MAX];
+    let fits = ((w[3] == 0 && w[2] >> 63 == 0) || (w[3] == u64::MAX && w[2] >> 63 == 1)) && !is_min192;
     match I192::try_from(i256(w)) { Ok(r) => { assert!(fits); assert!(r == i192([w[0], w[1], w[2]])); } Err(_) => assert!(!fits) }
 }
-harness!(l0_widen_narrow, 8, l0_widen_narrow_body);
+harness!(l0_widen_narrow, 34, l0_widen_narrow_body);
 
 /// L0 (complete, no input): the constants assumed by the Decimal units.
 fn l0_decimal_constants_body<S: Src>(_s: &mut S) {
@@ -162,7 +164,7 @@ fn l0_decimal_constants_body<S: Src>(_s: &mut S) {
     assert!(Decimal::ONE_HUNDRED.attos() == i192([7766279631452241920, 5, 0]));
     assert!(Decimal::TEN.attos() == i192([10_000_000_000_000_000_000, 0, 0]));
 }
-harness!(l0_decimal_constants, 8, l0_decimal_constants_body);
+harness!(l0_decimal_constants, 34, l0_decimal_constants_body);
 
 /// C24 pair (complete): Decimal checked_add / checked_sub on the real type are exact or None.
 fn c24_decimal_add_sub_body<S: Src>(s: &mut S) {
@@ -176,12 +178,25 @@ fn c24_decimal_add_sub_body<S: Src>(s: &mut S) {
         match x.checked_sub(y) { Some(r) => { assert!(!o); assert!(r.attos() == i192(d)); } None => assert!(o) }
     }
 }
-harness!(c24_decimal_add_sub, 8, c24_decimal_add_sub_body);
+harness!(c24_decimal_add_sub, 34, c24_decimal_add_sub_body);
 
 #[cfg(all(test, not(kani)))]
 mod finding_tests {
     use super::*;
     /// the concrete input of the C29 finding: 20 chars, 21 bytes (non-ASCII second digit of seconds)
+    /// C24 known finding (replay on the real crate): products/quotients equal to the most negative
+    /// value are representable but reported as overflow, because the I256 -> I192 narrowing rejects -2^191.
+    #[test]
+    fn c24_finding_min_times_one_is_reported_as_overflow() {
+        use radix_common::math::*;
+        println!("Decimal::MIN.checked_mul(Decimal::ONE) = {:?}", Decimal::MIN.checked_mul(Decimal::ONE));
+        println!("Decimal::MIN.checked_div(Decimal::ONE) = {:?}", Decimal::MIN.checked_div(Decimal::ONE));
+        println!("PreciseDecimal::MIN.checked_mul(PreciseDecimal::ONE) = {:?}", PreciseDecimal::MIN.checked_mul(PreciseDecimal::ONE));
+        println!("I192::try_from(I256::from(I192::MIN)) is_ok = {}", I192::try_from(I256::from(I192::MIN)).is_ok());
+        // the finding is present exactly when this assertion FAILS
+        assert_eq!(Decimal::MIN.checked_mul(Decimal::ONE), Some(Decimal::MIN), "FINDING-PRESENT: MIN * 1 reported as overflow");
+    }
+
     #[test]
     fn c29_from_str_non_ascii_does_not_panic() {
         let r = std::panic::catch_unwind(|| UtcDateTime::from_str("2023-01-27T12:17:2\u{e9}Z").is_ok());
